@@ -90,6 +90,28 @@ pub fn gen_batches(r: &mut Rng, len: usize) -> Vec<Value> {
     // remote inserts sent so far: now and then one of them is sent again, byte for byte (a duplicate delivery) - whatever
     // the state of the document has become in the meantime
     let mut sent_remote: Vec<Value> = vec![];
+    if META_FOCUS.with(|c| c.get()) {
+        // the documents of such a history hold something from the start: both opened with sync, a few local and remote
+        // entries with distinct hashes (the hash list, the heads and the download flags then have something to show, and a
+        // drop has something to take away)
+        let mut reqs = vec![];
+        for d in 1..=NDOCS {
+            let mut q = req("Open", d);
+            q["sync"] = json!(true);
+            q["sub"] = json!(d == 1);
+            q["now"] = json!(now);
+            reqs.push(q);
+            for j in 0..2usize {
+                let mut q = req(if j == 0 { "InsertLocal" } else { "InsertRemote" }, d);
+                let h = if (d + j) % 2 == 0 { 1 } else { 2 };
+                q["e"] = json!({"a":1 + j,"k":key_json(KEYS[(d + 2 * j) % 5]),"ts":now,"h":h,"len":1});
+                q["now"] = json!(now);
+                reqs.push(q);
+            }
+        }
+        t += reqs.len();
+        out.push(json!({"now": now, "reqs": reqs}));
+    }
     while t < len {
         let n = 1 + r.below(4);
         now += r.below(3) as u64;
